@@ -772,7 +772,7 @@ Qed.
 
 (** * non-vacuity
     root: group g = {x}, c overrides d (outside both families), subcommands [s] (a non-multiple group
-    {a, b} and an argument conflicting with it) and [t], which sets [ignore_errors] locally and
+    {a, b} and an argument conflicting with it) and [t], which sets [ignore_errors] (the builder method: a global setting, inherited by t's own subtree) and
     has a required argument.  [no_ignore] fails for this definition; a parse that reaches [s]
     satisfies the hypotheses on the reported chain. *)
 Definition i_h : id := [104].
@@ -783,7 +783,8 @@ Definition al_s : cmd :=
 Definition al_t : cmd :=
   cmd_new [116]
     <| c_args := [wflag i_b [98;98] <| a_required := true |>] |>
-    <| c_set := settings_none <| s_ignore_errors := true |> |>.
+    <| c_set := settings_none <| s_ignore_errors := true |> |>
+    <| c_gset := settings_none <| s_ignore_errors := true |> |>.
 Definition al_cmd : cmd :=
   cmd_new [112]
     <| c_args := [wflag i_x [120;120]; wflag i_d [100;100]; wflag i_c [99;99] <| a_overrides := [i_d] |>] |>
